@@ -17,10 +17,10 @@ from gen import gen_device, HistoryGen
 
 # property -> configuration of its correspondence run
 CONFIG = {
-    "C01": dict(wants=["any", "eom", "dmm", "local"], profiles=["mix", "eom", "dmm", "limits"],
+    "C01": dict(wants=["any", "eom", "dmm", "local", "maxseq"], profiles=["mix", "eom", "dmm", "limits"],
                 quick=1000, thorough=20000, wrap_share=0.1,
                 lean_targets=["PulserModel", "Properties.C01"]),
-    "C09": dict(wants=["any", "eom", "dmm", "local"], profiles=["mix", "eom", "target", "dmm"],
+    "C09": dict(wants=["any", "eom", "dmm", "local", "maxseq"], profiles=["mix", "eom", "target", "dmm"],
                 quick=450, thorough=15000, wrap_share=0.3, p_invalid=0.3,
                 lean_targets=["PulserModel", "Properties.C09"]),
     "C13": dict(wants=["any", "eom", "dmm", "local", "xy"], profiles=["mix", "eom", "target", "dmm"],
@@ -40,7 +40,7 @@ CONFIG = {
     "C15": dict(wants=["eom"], profiles=["eom", "eom", "mix"],
                 quick=800, thorough=15000, wrap_share=0.4,
                 lean_targets=["PulserModel", "Properties.C15"]),
-    "C02": dict(wants=["any", "eom", "dmm", "local"], profiles=["mix", "eom", "target", "dmm"],
+    "C02": dict(wants=["any", "eom", "dmm", "local", "maxseq"], profiles=["mix", "eom", "target", "dmm"],
                 quick=1200, thorough=20000, wrap_share=0.2,
                 lean_targets=["PulserModel", "Properties.C02"]),
 }
